@@ -33,6 +33,20 @@ ELSVecs ==
      SB("NewEncryptedLeaseSet", st, [off |-> FALSE, tst |-> 7, flags |-> f, innerlen |-> n, published |-> T4, expires |-> 600, offexpires |-> T4], 64, << 5 >>, 500 + st + f + n))
   \o Cross3(<< 11, 7 >>, << 7, 11 >>, << 1, 3 >>, LAMBDA st, tst, f :
      SB("NewEncryptedLeaseSet", st, [off |-> TRUE, tst |-> tst, flags |-> f, innerlen |-> 100, published |-> T4, expires |-> 600, offexpires |-> << 101, 36, 250, 0 >>], 64, << 5 >>, 600 + st + tst + f))
+\* transient DSA (40-byte signatures) and P-256 keys, handed over as go-i2p/crypto key objects (P-384 has no such object): whatever the constructor
+\* returns without error has to validate, verify and survive the wire
+ELSOddTransientVecs ==
+  Cross2(<< 11, 7 >>, << << 0, 40 >>, << 1, 64 >> >>, LAMBDA st, t :
+     SB("NewEncryptedLeaseSet", st, [off |-> TRUE, tst |-> t[1], flags |-> 1, innerlen |-> 100, published |-> T4, expires |-> 600, offexpires |-> << 101, 36, 250, 0 >>], t[2], << 5 >>, 640 + st + t[1]))
+  \o Cross2(<< 11, 7 >>, << << 0, 40 >>, << 1, 64 >> >>, LAMBDA st, t :
+     SB("NewLeaseSet2", st, [ct |-> 4, pairs |-> MapSets[3], off |-> TRUE, tst |-> t[1], flags |-> 1, nkeys |-> 1, nleases |-> 1, published |-> T4, expires |-> 600, offexpires |-> << 101, 36, 250, 0 >>], t[2], << 3 >>, 840 + st + t[1]))
+\* ... and the mismatch a caller can produce: the offline block announces a DSA / P-256 / P-384 transient key, the structure is signed with the
+\* identity's Ed25519 key (whatever comes back without error must still validate and survive the wire)
+ELSMismatchVecs ==
+  Cross2(<< 11, 7 >>, << << 0, 40 >>, << 1, 64 >>, << 2, 96 >> >>, LAMBDA st, t :
+     SB("NewEncryptedLeaseSet", st, [off |-> TRUE, tst |-> t[1], flags |-> 1, innerlen |-> 100, published |-> T4, expires |-> 600, offexpires |-> << 101, 36, 250, 0 >>, edsigner |-> TRUE], t[2], << 5 >>, 620 + st + t[1]))
+  \o Cross2(<< 11, 7 >>, << << 0, 40 >>, << 1, 64 >>, << 2, 96 >> >>, LAMBDA st, t :
+     SB("NewLeaseSet2", st, [ct |-> 4, pairs |-> MapSets[3], off |-> TRUE, tst |-> t[1], flags |-> 1, nkeys |-> 1, nleases |-> 1, published |-> T4, expires |-> 600, offexpires |-> << 101, 36, 250, 0 >>, edsigner |-> TRUE], t[2], << 3 >>, 820 + st + t[1]))
 \* single-defect variants of the EncryptedLeaseSet constructor (C14): flag/offline mismatch both ways, reserved bits, zero expiry,
 \* inner data too short, blinded key of the wrong length
 ELSM(off, tst, flags, innerlen, expires, keydelta) == [off |-> off, tst |-> tst, flags |-> flags, innerlen |-> innerlen, published |-> T4, expires |-> expires,
@@ -48,7 +62,7 @@ LS2Vecs ==
   [k \in 1..Len(MapSets) |-> SB("NewLeaseSet2", 7, [ct |-> 4, pairs |-> MapSets[k], off |-> FALSE, tst |-> 7, flags |-> 0, nkeys |-> 1, nleases |-> (k % 3) + 1, published |-> T4, expires |-> 600, offexpires |-> T4], 64, << 3 >>, 700 + k)]
   \o Cross2(<< 7, 11 >>, << 7, 11 >>, LAMBDA st, tst : SB("NewLeaseSet2", st, [ct |-> 4, pairs |-> MapSets[3], off |-> TRUE, tst |-> tst, flags |-> 1, nkeys |-> 2, nleases |-> 2, published |-> T4, expires |-> 600, offexpires |-> << 101, 36, 250, 0 >>], 64, << 3 >>, 800 + st + tst))
   \o SeqMap(LAMBDA f : SB("NewLeaseSet2", 11, [ct |-> 4, pairs |-> MapSets[1], off |-> FALSE, tst |-> 7, flags |-> f, nkeys |-> 1, nleases |-> 16, published |-> T4, expires |-> 65535, offexpires |-> T4], 64, << 3 >>, 900 + f), << 0, 2, 4, 6 >>)
-Vecs == RIVecs \o LSVecs \o OffVecs \o ELSVecs \o ELSDefectVecs \o LS2Vecs
+Vecs == RIVecs \o LSVecs \o OffVecs \o ELSVecs \o ELSOddTransientVecs \o ELSMismatchVecs \o ELSDefectVecs \o LS2Vecs
 VARIABLE done
 Init == done = FALSE
 Next == ~done /\ ndJsonSerialize(OutFile, Vecs) /\ PrintT(<< "GENERATED", Len(Vecs) >>) /\ done' = TRUE
